@@ -243,7 +243,8 @@ TRUSTED = TRUSTED + BK_TRUSTED
 def tasks(tier):
     # "differentiable primitives" of the three AD backends: their wrapper methods are the tensor operations of the objective
     from .BK_backend_ops import backend_op_tasks
-    return [("opt_pytorch", t_pytorch), ("opt_tflow", t_tflow), ("opt_jax", t_jax)] + [(n, f) for n, f in backend_op_tasks(tier) if "numpy" not in n]
+    from .C05_fits import t_shim       # "fixed parameters stitched out or not": the split / re-assembly and the pieces the shims receive
+    return [("opt_pytorch", t_pytorch), ("opt_tflow", t_tflow), ("opt_jax", t_jax), ("shim", t_shim)] + [(n, f) for n, f in backend_op_tasks(tier) if "numpy" not in n]
 
 
 def replay(r):
@@ -251,6 +252,9 @@ def replay(r):
     real shim is compared with the non-differentiating path (value) and with central finite differences (gradient),
     with and without stitching, at points in every interpolation regime"""
     name = r["name"]
+    if "common.py::shim" in name or "common.py::_make_stitch_pars" in name:
+        from .C05_fits import replay as replay_c05
+        return replay_c05(r)
     if (r.get("meta") or {}).get("op") and (r.get("meta") or {}).get("backend"):
         from .BK_backend_ops import replay_backend_op
         return replay_backend_op(r)
